@@ -58,20 +58,21 @@ func iteByte(c bool, a, b byte) byte {
 }
 
 // Abstract stream state of an io.Reader / io.Writer (uninterpreted in the VCs).
-func inPos(r io.Reader) int             { return 0 }
-func inEnd(r io.Reader) int             { return 0 }
-func inByte(r io.Reader, i int) byte    { return 0 }
-func inErr(r io.Reader) error           { return nil }
-func outLen(w io.Writer) int            { return 0 }
-func outCalls(w io.Writer) int          { return 0 }
-func outByte(w io.Writer, i int) byte   { return 0 }
-func sameBase(a, b []byte) bool         { return false }
-func offOf(a []byte) int                { return 0 }
-func rangeIdx() int                     { return 0 }
-func fresh(b []byte) bool               { return false }
-func freshStr(s string) bool            { return false }
-func strViewOf(s string, b []byte) bool { return false }
-func validUTF8(s string) bool           { return false }
+func inPos(r io.Reader) int                  { return 0 }
+func inEnd(r io.Reader) int                  { return 0 }
+func inByte(r io.Reader, i int) byte         { return 0 }
+func inErr(r io.Reader) error                { return nil }
+func outLen(w io.Writer) int                 { return 0 }
+func outCalls(w io.Writer) int               { return 0 }
+func outByte(w io.Writer, i int) byte        { return 0 }
+func sameBase(a, b []byte) bool              { return false }
+func offOf(a []byte) int                     { return 0 }
+func rangeIdx() int                          { return 0 }
+func dynTypeIs(x interface{}, t string) bool { return false }
+func fresh(b []byte) bool                    { return false }
+func freshStr(s string) bool                 { return false }
+func strViewOf(s string, b []byte) bool      { return false }
+func validUTF8(s string) bool                { return false }
 
 // ---------------------------------------------------------------------------
 // Specification functions (RFC 6455 §5.2), written from the RFC text.
@@ -284,6 +285,7 @@ func lemmaCloseRoundTrip(code StatusCode, reason string) bool {
 //@   ensures [accept] codeAccept(code) ==> ((result == nil) == validUTF8(reason))
 //@   ensures [refuse] !codeAccept(code) && !codeOpen(code) ==> result != nil
 //@   ensures [utf8]   result == nil ==> validUTF8(reason)
+//@   ensures [type]   result != nil ==> dynTypeIs(result, "ws.ProtocolError")
 //@   assigns nothing
 
 //@ func PutCloseFrameBody
@@ -621,7 +623,7 @@ func noByteAfter(s string, i int, c byte) bool {
 //@   props C10 C15
 //@   requires [host] forall(0, len(host), func(k int) bool { return host[k] != ']' || noByteAfter(host, k, ']') })
 //@   ensures [explicit] exists(0, len(host), func(k int) bool { return host[k] == ':' && forall(k, len(host), func(j int) bool { return host[j] != ']' }) }) ==> addr == host
-//@   ensures [name]     addr == host ==> len(hostname) < len(host) && host[len(hostname)] == ':' && noByteAfter(host, len(hostname), ':') && forall(0, len(hostname), func(k int) bool { return hostname[k] == host[k] })
+//@   ensures [name]     exists(0, len(host), func(k int) bool { return host[k] == ':' && forall(k, len(host), func(j int) bool { return host[j] != ']' }) }) ==> len(hostname) < len(host) && host[len(hostname)] == ':' && noByteAfter(host, len(hostname), ':') && forall(0, len(hostname), func(k int) bool { return hostname[k] == host[k] })
 //@   ensures [default]  !exists(0, len(host), func(k int) bool { return host[k] == ':' && forall(k, len(host), func(j int) bool { return host[j] != ']' }) }) ==> hostname == host && len(addr) == len(host)+len(defaultPort) && forall(0, len(host), func(k int) bool { return addr[k] == host[k] }) && forall(0, len(defaultPort), func(k int) bool { return addr[len(host)+k] == defaultPort[k] })
 //@   assigns nothing
 
@@ -667,3 +669,34 @@ func specCanon(prev byte, c byte) byte {
 //@   loop 1 invariant [rest] forall(rangeIdx()+1, len(k), func(j int) bool { return k[j] == old(k[j]) })
 //@   loop 1 invariant [up]   upper == (rangeIdx() < 0 || old(k[rangeIdx()]) == '-')
 //@   loop 1 assigns bytes(k)
+
+// Request line: method SP request-target SP HTTP-version.
+//@ func httpParseRequestLine
+//@   props C09 C15
+//@   ensures [fields] err == nil ==> specFieldsAt(line, len(req.method), len(req.method)+1+len(req.uri)) && sameSlice(req.method, line[:len(req.method)]) && sameSlice(req.uri, line[len(req.method)+1:len(req.method)+1+len(req.uri)])
+//@   ensures [version] err == nil ==> len(line)-len(req.method)-len(req.uri)-2 >= 8 && isHTTPSlash(line[len(req.method)+len(req.uri)+2:])
+//@   ensures [v11]   err == nil && len(line)-len(req.method)-len(req.uri)-2 == 8 ==> req.major == dig(line[len(line)-3]) && req.minor == dig(line[len(line)-1])
+//@   ensures [errv]  err != nil ==> err == ErrMalformedRequest
+//@   assigns nothing
+
+// Header line: key ":" value, blanks around both ignored, key canonicalised in place.
+func specHeaderAt(line []byte, c, ks, ke, vs, ve int) bool {
+	return 0 <= ks && ks <= ke && ke <= c && c < vs && vs <= ve && ve <= len(line) && line[c] == ':' && noSep(line[:c], ':') &&
+		forall(0, ks, func(i int) bool { return isBlank(line[i]) }) && forall(ke, c, func(i int) bool { return isBlank(line[i]) }) &&
+		forall(c+1, vs, func(i int) bool { return isBlank(line[i]) }) && forall(ve, len(line), func(i int) bool { return isBlank(line[i]) })
+}
+
+//@ func httpParseHeaderLine
+//@   props C09 C10 C15
+//@   ensures [none]  !ok ==> noSep(line, ':') && isNilSlice(k) && isNilSlice(v)
+//@   ensures [some]  ok ==> !noSep(line, ':')
+//@   ensures [parts] ok && len(k) > 0 && len(v) > 0 ==> sameBase(k, line) && sameBase(v, line) && 0 <= offOf(k)-offOf(line) && offOf(k)-offOf(line)+len(k) < offOf(v)-offOf(line) && offOf(v)-offOf(line)+len(v) <= len(line)
+//@   unproved "13-25 s on an idle machine: attempted, not claimed"
+//@   ensures [nocolon] ok && len(k) > 0 ==> noSep(k, ':')
+//@   ensures [lead]  ok && len(k) > 0 ==> forall(0, offOf(k)-offOf(line), func(i int) bool { return isBlank(line[i]) })
+//@   unproved "13-25 s on an idle machine: attempted, not claimed"
+//@   ensures [trail] ok && len(v) > 0 ==> forall(offOf(v)-offOf(line)+len(v), len(line), func(i int) bool { return isBlank(line[i]) })
+//@   ensures [tight] ok && len(k) > 0 ==> !isBlank(k[0]) && !isBlank(k[len(k)-1])
+//@   ensures [vtight] ok && len(v) > 0 ==> !isBlank(v[0]) && !isBlank(v[len(v)-1])
+//@   ensures [canon] ok ==> forall(0, len(k), func(i int) bool { return k[i] == specCanon(iteByte(i == 0, '-', k[i-1]), k[i]) })
+//@   assigns bytes(line)
